@@ -237,6 +237,31 @@ def type_matches(name, value):
     return False
 
 
+NAME_MAPS = ("properties", "patternProperties", "definitions", "dependencies")
+LITERAL_KEYWORDS = ("const", "enum", "default")
+
+
+def walk_schemas(node):
+    """Every dict sitting at a schema position below `node`, by POSITION: the members of the name maps are
+    schemas whatever they are called (a property named "default" is a schema), the keywords `default` /
+    `const` / `enum` hold literals."""
+    if isinstance(node, list):
+        for sub in node:
+            yield from walk_schemas(sub)
+        return
+    if not isinstance(node, dict):
+        return
+    yield node
+    for key, val in node.items():
+        if key in LITERAL_KEYWORDS:
+            continue
+        if key in NAME_MAPS and isinstance(val, dict):
+            for sub in val.values():
+                yield from walk_schemas(sub)
+        else:
+            yield from walk_schemas(val)
+
+
 def resolve_pointer(root, pointer):
     if pointer in ("", "#"):
         return root
